@@ -80,6 +80,14 @@ def run(ctx, R, tier):
     R.check(ok, "C16-R2", "register|duplicate-id-refused", "without force the store is reachable only if the id is not yet in the registry", reg.loc(st0),
             "a second registration under an id that is already taken silently replaces the first object")
 
+    # a (forced) registration replaces the entry with ONE store: register() removes nothing first (no unregister call, no delete / pop on the registry) - otherwise the id
+    # is unknown for a moment to calls, handshakes and registered(), although nobody unregistered it
+    removes = [c for c in ctx.calls_to(reg, "Pyro5.server.Daemon.unregister")]
+    removes += [st for st, t, k in stores_in(reg.node) if k == "del" and isinstance(t, ast.Subscript) and registry_expr(t.value)]
+    removes += [c for c in walk_no_nested(reg.node) if isinstance(c, ast.Call) and isinstance(c.func, ast.Attribute) and c.func.attr in ("pop", "popitem", "clear") and registry_expr(c.func.value)]
+    R.check(not removes, "C16-R2", "register|replacement-is-one-store", "register() replaces an entry by the single registry store; it removes nothing beforehand", reg.loc(removes[0]) if removes else reg.loc(),
+            "`%s` in register(): between this removal and the store the id is not registered - a concurrent call, connect or registered() sees it vanish, and the old object's "
+            "marks are cleared although it is being replaced, not unregistered" % (unparse(removes[0], 60) if removes else ""))
     # a registration either happens or fails, not both: once the object is in the registry nothing that can still raise runs before register() returns (building the
     # URI for an id that is not a valid object name raises: done after the store, the caller gets an exception AND a registered, reachable object)
     can_raise = ctx.exc_filter(reg)
